@@ -218,3 +218,34 @@ func isByteSliceOrString(t types.Type) bool {
 	}
 	return false
 }
+
+
+// impliesGE: the branch condition cond having the given outcome implies a >= b (signed integers).
+func impliesGE(cond ssa.Value, outcome bool, a, b ssa.Value) bool {
+	bo, ok := cond.(*ssa.BinOp)
+	if !ok {
+		return false
+	}
+	switch {
+	case bo.X == a && bo.Y == b:
+		return (bo.Op == token.GEQ && outcome) || (bo.Op == token.LSS && !outcome)
+	case bo.X == b && bo.Y == a:
+		return (bo.Op == token.LEQ && outcome) || (bo.Op == token.GTR && !outcome)
+	}
+	return false
+}
+
+// impliesLT: the branch condition cond having the given outcome implies a < b.
+func impliesLT(cond ssa.Value, outcome bool, a, b ssa.Value) bool {
+	bo, ok := cond.(*ssa.BinOp)
+	if !ok {
+		return false
+	}
+	switch {
+	case bo.X == a && bo.Y == b:
+		return (bo.Op == token.LSS && outcome) || (bo.Op == token.GEQ && !outcome)
+	case bo.X == b && bo.Y == a:
+		return (bo.Op == token.GTR && outcome) || (bo.Op == token.LEQ && !outcome)
+	}
+	return false
+}
